@@ -44,6 +44,7 @@ type Contract struct {
 	InlineInvs   map[string][]*Clause // "Callee.k" -> invariants of loop k of the inlined callee Callee
 	LoopModifies map[int][]string
 	NoPanic      bool
+	NoPanicIf    []*Clause // nopanic_if: the no-panic obligations are required only for entry states satisfying these
 	Pure         bool
 	Inline       bool
 	Trusted      bool
@@ -123,7 +124,7 @@ type GhostDecl struct {
 var clauseKw = map[string]bool{
 	"func": true, "extern": true, "requires": true, "ensures": true, "nopanic": true, "modifies": true,
 	"pure": true, "inline": true, "loop": true, "let": true, "assume": true, "trusted": true, "prelude": true,
-	"lemma": true, "panics_unless": true, "props": true, "ghost": true, "end": true, "modifies_ptr": true, "kvstore": true, "hint": true, "vars": true, "call": true, "show": true, "use": true, "abstracts": true, "global": true, "implements": true, "typetag": true, "at_next": true,
+	"lemma": true, "panics_unless": true, "props": true, "ghost": true, "end": true, "modifies_ptr": true, "kvstore": true, "hint": true, "nopanic_if": true, "vars": true, "call": true, "show": true, "use": true, "abstracts": true, "global": true, "implements": true, "typetag": true, "at_next": true,
 }
 
 var labelRe = regexp.MustCompile(`^@([A-Za-z0-9_\-]+)\s*`)
@@ -338,6 +339,14 @@ func (cs *ContractSet) LoadFile(path, pkg string) error {
 					return fmt.Errorf("%s: %v", where, err)
 				}
 				cur.Lets = append(cur.Lets, LetDef{strings.TrimSpace(rest[:idx]), e})
+			case "nopanic_if":
+				cl, err := parseClause("nopanic_if", rest, where)
+				if err != nil {
+					return err
+				}
+				cl.File, cl.Line = path, l.line
+				cur.NoPanic = true
+				cur.NoPanicIf = append(cur.NoPanicIf, cl)
 			case "requires", "ensures", "panics_unless", "assume", "hint", "abstracts", "at_next":
 				cl, err := parseClause(kw, rest, where)
 				if err != nil {
